@@ -180,6 +180,11 @@ def gen_case(rng, tracer=None):
         z0 = rng.uniform(-900, -10)
         z1 = rng.uniform(-900, -10)
         rho = 0.0 if vertical else rng.uniform(5, 800)
+    if not vertical and tracer in ("specialized", "uniform", "layered") and rng.random() < 0.15:
+        # nearly horizontal rays: end points less than one integration step apart in depth, or at equal depth
+        z1 = z0 + rng.choice([0.0, 0.3, -0.4, 0.9, -0.05])
+        rho = rng.choice([rng.uniform(5, 80), rng.uniform(20, 400)])
+        case["near_horizontal"] = True
     phi = rng.uniform(-math.pi, math.pi)
     x0, y0 = rng.uniform(-1000, 1000), rng.uniform(-1000, 1000)
     if vertical:
@@ -371,14 +376,45 @@ def close_list(got, ex, tol_abs, rel=1e-9):
 
 
 # --------------------------------------------------------------------------------------------
+def corner_cases(rng):
+    """boundary geometries that random end points almost never hit: equal depths, end points less than one
+    integration step apart, exactly vertical pairs, an end point exactly on a layer boundary / range bound"""
+    x0, y0 = rng.uniform(-500, 500), rng.uniform(-500, 500)
+    phi = rng.uniform(-math.pi, math.pi)
+    c, sn = math.cos(phi), math.sin(phi)
+    z = -rng.uniform(50, 600)
+    uni = {"kind": "uniform", "n": rng.uniform(1.4, 1.8), "range": [-1500.0, 0.0], "above": 1, "below": 2.0}
+    lay = {"kind": "layered", "above": 1, "below": None,
+           "layers": [{"kind": "uniform", "n": 1.35, "range": [-150.0, 0.0]},
+                      {"kind": "uniform", "n": 1.7, "range": [-2500.0, -150.0]}]}
+    r1, r2 = rng.uniform(20, 60), rng.uniform(100, 300)
+    cs = [
+        {"tracer": "uniform", "ice": uni, "max_reflections": 1, "from": [x0, y0, z], "to": [x0 + r2 * c, y0 + r2 * sn, z]},
+        {"tracer": "uniform", "ice": uni, "max_reflections": 0, "from": [x0, y0, z],
+         "to": [x0 + r2 * c, y0 + r2 * sn, z + rng.choice([0.4, -0.7])]},
+        {"tracer": "uniform", "ice": uni, "max_reflections": 1, "from": [x0, y0, z], "to": [x0, y0, z - 120.0]},
+        {"tracer": "specialized", "ice": {"kind": rng.choice(["antarctic", "greenland", "arasim"])},
+         "from": [x0, y0, z], "to": [x0 + r1 * c, y0 + r1 * sn, z + rng.choice([0.9, -0.6, 0.3])]},
+        {"tracer": "specialized", "ice": {"kind": "antarctic"}, "from": [x0, y0, z], "to": [x0 + r1 * c, y0 + r1 * sn, z]},
+        {"tracer": "specialized", "ice": {"kind": "antarctic"}, "from": [x0, y0, z], "to": [x0, y0, z + 35.0]},
+        {"tracer": "layered", "ice": lay, "max_reflections": 1, "from": [x0, y0, -400.0],
+         "to": [x0 + r2 * c, y0 + r2 * sn, -400.0]},
+        {"tracer": "layered", "ice": lay, "max_reflections": 0, "from": [x0, y0, -400.0], "to": [x0, y0, -60.0]},
+        {"tracer": "layered", "ice": lay, "max_reflections": 0, "from": [x0, y0, -400.0],
+         "to": [x0 + r1 * c, y0 + r1 * sn, -150.0]},
+    ]
+    return cs
+
+
 def collect_paths(run, npaths):
     """(case, index, path) triples from all four tracers"""
     out = []
     order = ["specialized", "basic", "uniform", "layered"]
     guard = 0
+    corners = corner_cases(run.rng)[::2]
     while len(out) < npaths and guard < 40 * npaths:
         guard += 1
-        case = gen_case(run.rng, tracer=order[guard % 4] if guard <= 4 * 6 else None)
+        case = corners.pop(0) if corners else gen_case(run.rng, tracer=order[guard % 4] if guard <= 4 * 6 else None)
         paths, ice = make_paths(case)
         for i, p in enumerate(paths):
             out.append((case, i, p))
@@ -391,7 +427,7 @@ def collect_paths(run, npaths):
 def correspondence(run):
     rt, im, ps, li = mods()
     rng = run.rng
-    trip = collect_paths(run, run.scale(36, 400))
+    trip = collect_paths(run, run.scale(36, 280))
     reqs, expect, tols, descs = [], [], [], []
     layered_pending = []     # (desc, impl values, [indices of sub requests per frequency])
 
@@ -635,6 +671,33 @@ def layered_junctions(path):
     return out
 
 
+def exponent_bounds(path, kind, f, m=400):
+    """(path_length / max L, path_length / min L) over the depth interval the ray visits; None if not covered"""
+    if kind == "layered":
+        parts = [exponent_bounds(p, sub_kind(p), f, m) for p in path.paths]
+        if any(q is None for q in parts):
+            return None
+        return (float(sum(q[0] for q in parts)), float(sum(q[1] for q in parts)))
+    ice = path.ice
+    if kind == "uniform":
+        zs = np.asarray(path._points, dtype=float)[:, 2]
+        zlo, zhi = float(np.min(zs)), float(np.max(zs))
+    else:
+        zlo = min(float(path.z0), float(path.z1))
+        zhi = max(float(path.z0), float(path.z1))
+        if not path.direct:
+            zt = float(path.z_turn)
+            if not math.isfinite(zt):
+                return None
+            zhi = max(zhi, min(zt, float(ice.valid_range[1])))
+    zz = np.linspace(zlo, zhi, m) if zhi > zlo else np.array([zlo])
+    L = np.asarray(ice.attenuation_length(zz, float(f)), dtype=float)
+    pl = float(path.path_length)
+    if not (math.isfinite(pl) and np.all(np.isfinite(L)) and np.min(L) > 0):
+        return None
+    return (pl / float(np.max(L)), pl / float(np.min(L)))
+
+
 def indep_exponent(path, kind, f, m=4000):
     """integral of ds / L_att(z, f) along the path by a fine midpoint rule, from the geometry alone; None where the
     integrand is singular (turning rays) or the path class is not covered"""
@@ -714,6 +777,21 @@ def check_path(run, case, idx, path, deep=False):
         if a0 < float(np.max(att)) * (1 - 1e-11):
             fail("attenuation-monotone", [0.0, a0, float(np.max(att))], "attenuation(0) >= attenuation(f)",
                  "attenuation grows with |f| from f=0")
+        # path_length / max L  <=  -log(attenuation)  <=  path_length / min L  over the depths the ray visits
+        for fq in (1e8, 6e8):
+            bnd = exponent_bounds(path, kind, fq)
+            av = float(np.asarray(path.attenuation(np.array([fq])))[0])
+            if bnd is None or not (av > 1e-280):
+                continue
+            got = -math.log(av)
+            # straight segments are exact; the numeric z-integrals of near-horizontal rays (10 samples in the
+            # transformed variable) are good to about 1 % on the unchanged tree
+            straight = kind == "uniform" or (kind == "layered" and all(sub_kind(q) == "uniform" for q in path.paths))
+            slack = 3e-3 if straight else 1.5e-2
+            if not (bnd[0] * (1 - slack) - 1e-9 <= got <= bnd[1] * (1 + slack) + 1e-9):
+                fail("attenuation-bounds", got, list(bnd),
+                     "-log(attenuation) is outside [path_length/max L_att, path_length/min L_att] along the path",
+                     extra={"f": fq})
         # the exponent is the path integral of ds / L_att(z,|f|): independent fine quadrature
         for fq in (1e8, 6e8):
             ref = indep_exponent(path, kind, fq)
@@ -833,6 +911,9 @@ def check_path(run, case, idx, path, deep=False):
             verify_scalar(path, ctx, t0, dt, x if n != 11 or ip is None else x[:10], ip,
                           dict(extra, step="scalar", interp=ip))
         verify_scalar(path, ctx, t0, dt, np.zeros(n), interp, dict(extra, step="scalar signal=zero"))
+        # container / dtype forms of the same numbers
+        if ss is not None:
+            verify_forms(path, ctx, t0, dt, x, pol, interp, extra)
         # lazily evaluated inputs: FunctionSignal and the Askaryan pulses (FunctionSignal subclasses)
         fresh_f, _ = make_paths(case)
         ff = fresh_f[idx] if idx < len(fresh_f) else None
@@ -1015,6 +1096,56 @@ def verify_scalar(path, ctx, t0, dt, x, interp, extra, fresh=None):
                  extra=extra)
 
 
+def verify_forms(path, ctx, t0, dt, x, pol, interp, extra):
+    """the same samples / times / polarisation handed over as lists, tuples, float32 or integer arrays must give
+    the same outputs as float64 arrays; integer TIME grids are known finding K18"""
+    rt, im, ps, li = mods()
+    kind, fr, fail = ctx["kind"], ctx["fr"], ctx["fail"]
+    n = len(x)
+    kw = {} if interp is None else {"attenuation_interpolation": interp}
+    times = t0 + dt * np.arange(n)
+    xi = np.round(np.asarray(x) * 10)
+    polf = np.asarray(pol, dtype=float)
+    poli = np.round(polf * 3)
+    forms = [("lists", [float(q) for q in times], [float(q) for q in x], [float(q) for q in polf], times, x, polf),
+             ("tuples", tuple(float(q) for q in times), tuple(float(q) for q in x), tuple(float(q) for q in polf),
+              times, x, polf),
+             ("int values", times.copy(), xi.astype(np.int64), polf.copy(), times, xi, polf),
+             ("float32 values", times.copy(), xi.astype(np.float32), polf.copy(), times, xi, polf),
+             ("int polarisation", times.copy(), np.array(x, dtype=float), poli.astype(np.int64), times, x, poli),
+             ("int python polarisation", times.copy(), np.array(x, dtype=float), [int(q) for q in poli], times, x,
+              poli)]
+    for name, tt, vv, pp, rt_, rv_, rp_ in forms:
+        ex = dict(extra, step="form: " + name)
+        try:
+            (a, b), _ = path.propagate(ps.Signal(tt, vv), pp, **kw)
+            av, bv = np.array(a.values, dtype=float), np.array(b.values, dtype=float)
+        except Exception as e:      # noqa: BLE001
+            fail("crash", repr(e)[:200], "two signals", "propagate raised for inputs given as %s" % name, extra=ex)
+            continue
+        (ra, rb), _ = path.propagate(ps.Signal(np.array(rt_, dtype=float), np.array(rv_, dtype=float)),
+                                     np.array(rp_, dtype=float), **kw)
+        amp = (float(np.max(np.abs(rv_))) or 1.0) * (float(np.linalg.norm(rp_)) or 1.0) * max(1.0, abs(fr[0]), abs(fr[1]))
+        if not (np.array_equal(np.array(a.times, dtype=float), ra.times)
+                and np.allclose(av, ra.values, rtol=0, atol=1e-9 * amp)
+                and np.allclose(bv, rb.values, rtol=0, atol=1e-9 * amp)):
+            fail("forms", None, None, "propagate gives another result when the inputs are given as %s" % name, extra=ex)
+    # an integer time grid (Signal(range(N), ...))
+    ex = dict(extra, step="form: int times")
+    ti = np.arange(n, dtype=np.int64)
+    try:
+        (a, b), _ = path.propagate(ps.Signal(ti, np.array(x, dtype=float)), polf.copy())
+        if not np.array_equal(np.array(a.times, dtype=float), ti + float(path.tof)):
+            fail("grid", None, None, "integer time grid is not delayed by the time of flight", extra=ex)
+    except Exception as e:      # noqa: BLE001
+        if type(e).__name__ == "UFuncTypeError" or "Cannot cast ufunc" in str(e):
+            fail("crash", repr(e)[:200], "two signals",
+                 "K18: propagate of a signal with an integer-dtype times array raises (Signal.shift adds tof in place)",
+                 key="K18", extra=ex)
+        else:
+            fail("crash", repr(e)[:200], "two signals", "propagate raised on an integer time grid", extra=ex)
+
+
 def make_function_signal(src, times, g):
     """a lazily evaluated input signal and the plain sampled signal with the same values"""
     rt, im, ps, li = mods()
@@ -1153,15 +1284,19 @@ def check_history(run, case, idx, kind, fr, k2, fail):
     pol = g.standard_normal(3)
     f1 = np.sort(10 ** g.uniform(6, 9.5, size=6)) * g.choice([1, -1], size=6)
     f2 = np.sort(10 ** g.uniform(6, 9.5, size=6))
-    steps = [("prop", n1, dt1, ip, "dense"), ("read",), ("prop", n1, dt2, ip, "dense"), ("atten", f1), ("atten", f2),
+    uniform_like = kind == "uniform" or (kind == "layered" and all(sub_kind(q) == "uniform" for q in path.paths))
+    steps = [("prop", n1, dt1, ip, "dense"), ("read",), ("prop", n1, dt2, ip, "dense"),
+             ("atten-dz", f2, float(g.choice([0.25, 3.0, 7.5]))) if uniform_like else ("read",),
+             ("atten", f1), ("atten", f2),
              ("prop", n1, dt1, None, "dense"), ("prop", n1, dt2, None, "impulse"), ("sibling", n1, dt2, ip),
              ("scalar", n1, dt1, ip), ("scalar", n1, dt2, ip), ("prop", n2, dt1, ip2, "dense"),
              ("atten-scalar", float(f2[2])), ("basis",), ("prop", n1, dt1, ip, "dense"), ("prop", n2, dt2, ip2, "zero")]
     order = list(range(len(steps)))
-    # keep the first three in place (same length, other dt right after the first call), shuffle the rest
-    rest = order[3:]
+    # keep the first four in place (same length / other dt right after the first call; an attenuation call with
+    # another integration step before the default ones), shuffle the rest
+    rest = order[4:]
     g.shuffle(rest)
-    order = order[:3] + [int(i) for i in rest]
+    order = order[:4] + [int(i) for i in rest]
     for k, si in enumerate(order):
         st = steps[si]
         extra = {"history_step": k, "op": list(map(str, st)), "vseed": case.get("vseed", 12345)}
@@ -1181,6 +1316,27 @@ def check_history(run, case, idx, kind, fr, k2, fail):
             if interp is not None and n == 11:
                 n = 12
             verify_scalar(path, ctx, 0.0, dt, g.standard_normal(n), interp, extra, fresh=fresh_path())
+        elif st[0] == "atten-dz":
+            _, f, dzv = st
+            a1 = np.asarray(path.attenuation(np.array(f, copy=True), dz=dzv), dtype=float)
+            a2 = np.asarray(fresh_path().attenuation(np.array(f, copy=True), dz=dzv), dtype=float)
+            a3 = np.asarray(fresh_path().attenuation(np.array(f, copy=True)), dtype=float)
+            if kind == "layered":
+                prod = np.ones(np.shape(a1))
+                for q in fresh_path().paths:
+                    prod = prod * np.asarray(q.attenuation(np.array(f, copy=True), dz=dzv), dtype=float)
+                if not np.allclose(a1, prod, rtol=1e-12, atol=0):
+                    fail("layered-product", [float(v) for v in a1], [float(v) for v in prod],
+                         "layered attenuation(f, dz) is not the product of the sub-paths' attenuation(f, dz)",
+                         extra=extra)
+            if not np.allclose(a1, a2, rtol=1e-12, atol=0):
+                fail("history", [float(v) for v in a1], [float(v) for v in a2],
+                     "attenuation(f, dz) on a used path object differs from a never-used path", extra=extra)
+            if not np.allclose(np.log(np.maximum(a1, 1e-300)), np.log(np.maximum(a3, 1e-300)), rtol=2e-2 * dzv + 1e-3,
+                               atol=1e-9):
+                fail("attenuation-dz", [float(v) for v in a1], [float(v) for v in a3],
+                     "attenuation computed with integration step dz=%g is far from the default-step value" % dzv,
+                     extra=extra)
         elif st[0] in ("atten", "atten-scalar"):
             f = st[1]
             fin = np.array(f, copy=True)
@@ -1188,6 +1344,14 @@ def check_history(run, case, idx, kind, fr, k2, fail):
             a2 = np.asarray(fresh_path().attenuation(np.array(f, copy=True)), dtype=float)
             if not np.array_equal(fin, np.asarray(f)):
                 fail("input-mutated", None, None, "attenuation changed its frequency argument", extra=extra)
+            if kind == "layered":
+                prod = np.ones(np.shape(a1))
+                for q in fresh_path().paths:
+                    prod = prod * np.asarray(q.attenuation(np.array(f, copy=True)), dtype=float)
+                if not np.allclose(a1, prod, rtol=1e-12, atol=0):
+                    fail("layered-product", [float(v) for v in np.atleast_1d(a1)],
+                         [float(v) for v in np.atleast_1d(prod)],
+                         "layered attenuation is not the product of the sub-paths' attenuations", extra=extra)
             if a1.shape != a2.shape or not np.allclose(a1, a2, rtol=1e-12, atol=0):
                 fail("history", [float(v) for v in np.atleast_1d(a1)], [float(v) for v in np.atleast_1d(a2)],
                      "attenuation(f) on a used path object differs from a never-used path", extra=extra)
@@ -1214,13 +1378,18 @@ def check_history(run, case, idx, kind, fr, k2, fail):
 
 
 def search(run, deep):
-    npaths = run.scale(24, 300) if not deep else 300
+    npaths = run.scale(30, 200) if not deep else 200
     done = 0
     guard = 0
     order = ["specialized", "basic", "uniform", "layered"]
+    corners = corner_cases(run.rng)
     while done < npaths and guard < 30 * npaths:
         guard += 1
-        case = gen_case(run.rng, tracer=order[guard % 4] if guard <= 8 else None)
+        if corners:
+            case = corners.pop(0)
+            run.count("search_corner_cases")
+        else:
+            case = gen_case(run.rng, tracer=order[guard % 4] if guard <= 8 else None)
         case["vseed"] = run.rng.getrandbits(31)
         paths, ice = make_paths(case)
         for i, p in enumerate(paths):
@@ -1250,6 +1419,23 @@ def known_probes(run):
         run.known_finding("K2")
     else:
         run.notes.append("K2 probe: the recorded geometry no longer shows a factor > 1 (%s)" % fr)
+    k18_probe(run)
+
+
+def k18_probe(run):
+    """K18: propagate of Signal(range(8), ...) raises UFuncTypeError (in-place `times += tof` on an int64 array)"""
+    rt, im, ps, li = mods()
+    paths, _ = make_paths({"tracer": "specialized", "ice": {"kind": "antarctic"}, "from": [0, 0, -600],
+                           "to": [300, 40, -50]})
+    if not paths:
+        return
+    try:
+        paths[0].propagate(ps.Signal(range(8), [1, 0, 0, 0, 0, 0, 0, .5]), (0, 0, 1))
+        run.notes.append("K18 probe: an integer time grid is propagated without error now")
+    except Exception as e:      # noqa: BLE001
+        run.case({"probe": "K18"}, sample={"probe": "K18", "raised": repr(e)[:120]})
+        if type(e).__name__ == "UFuncTypeError" or "Cannot cast ufunc" in str(e):
+            run.known_finding("K18")
 
 
 def replay(run, data):
